@@ -53,6 +53,9 @@ def var_pool(i, kind, p):
         gname, gatoms = p["group"]
         return name, ("colvar {\n  name %s\n  width 0.5\n  lowerBoundary 0\n  upperBoundary 12\n  distance {\n    group1 {\n      name %s\n"
                       "      atomNumbers %d 8\n    }\n    group2 { atomNumbers 7 }\n  }\n}" % (name, gname, a)), {a, 7, 8}
+    if kind == "badkw":
+        # refused after its component and atoms were set up (strict parsing: unknown keyword at the variable level)
+        return name, cvz.zvar(name, a, -4, 8, 0.5, extra={"noSuchKeyword": "1"}), {a}
     if kind == "rmsd":
         return name, ("colvar {\n  name %s\n  width 0.5\n  lowerBoundary 0\n  upperBoundary 8\n  rmsd {\n    atoms { atomNumbers 1 2 5 6 7 }\n"
                       "    refPositions (0.1, 0.2, 0.3) (1.4, 0.1, -0.2) (0.3, 1.6, 0.4) (-0.2, 0.5, 1.8) (1.2, 1.3, 1.1)\n  }\n}" % name), {1, 2, 5, 6, 7}
@@ -62,7 +65,7 @@ def var_pool(i, kind, p):
     raise KeyError(kind)
 
 
-VAR_KINDS = ["z", "z", "zext", "ztf", "dist", "rmsd", "coord", "named", "ofgroup", "dupgroup"]
+VAR_KINDS = ["z", "z", "zext", "ztf", "dist", "rmsd", "coord", "named", "ofgroup", "dupgroup", "badkw"]
 BIAS_KINDS = ["harmonic", "harmonic_moving", "walls", "linear", "abf", "meta", "meta_nogrid", "abmd", "histogram", "opes", "alb"]
 
 
@@ -144,9 +147,9 @@ def plan(spec):
                 g = groups[o["pick"] % len(groups)]
                 p["group"] = (g[0], g[1])
             name, cfg, atoms = var_pool(nv, kind, p)
-            if kind == "dupgroup":
+            if kind in ("dupgroup", "badkw"):
                 doomed.add(name)
-                out.append({"op": "rejvar", "name": name, "cfg": cfg})
+                out.append({"op": "rejvar", "name": name, "cfg": cfg, "why": kind})
                 continue
             if kind == "named":
                 a = (nv % 4) + 1
@@ -284,6 +287,9 @@ def check_seq(spec, ctx, variant="rel"):
             if io in cfB:
                 return Outcome(False, msg="harness: rejected definition submitted in the clean run", sig="harness", case_text=full)
             if cfA[io]["rc"] == 0:
+                if o.get("why") == "badkw":
+                    return Outcome(False, msg="op%d: definition of %s with an unknown keyword was accepted" % (io, o["name"]),
+                                   sig="unknown_keyword_accepted", case_text=full)
                 return Outcome(False, msg="op%d: variable %s re-uses a registered atom-group name and was accepted (the name was registered by a "
                                "variable that is still alive)" % (io, o["name"]), sig="duplicate_group_accepted", case_text=full)
             rejected_seen += 1
